@@ -59,7 +59,7 @@ def key_uses(F, fi, cparam: str, kparam: str) -> List[Tuple[Optional[bool], Opti
 def check(chk: Check) -> None:
     F = chk.facts
     R1 = chk.rule('C14.R1', 'one key cast on every keyed path: get / read / del / write / compound write and dict '
-                            'literals apply the same normalisation to the key before every use, per container kind', floor=6)
+                            'literals apply the same normalisation to the key before every use, per container kind', floor=5)
     R2 = chk.rule('C14.R2', 'indices truncate, never round: Decimal indices are converted with int(...) in the list '
                             'branch of the cast and in insert / pop', floor=3)
     R3 = chk.rule('C14.R3', 'failed reads raise ParserError and change nothing: every keyed read of an argument container '
